@@ -102,11 +102,12 @@ func propDefs() map[string]propDef {
 		Explain: "data-structure invariant TrackerInv (bound login has the session's PID, parked login is filed under its PID, srcPID equals the PID of the LOGIN record that opened the session (ghost g_opened), users distinct) proved inductive over the four public operations from an arbitrary invariant-satisfying state — hence for every history, any number of sessions and PIDs, any placement of cleanup; every written event is asserted at its write site to render the audit event with the identity of the session's own login (ghost provenance out[i].by / out[i].src); postconditions: every event appended by RemoteLogin carries rul's identity and g_opened[auditId] == rul.PID, every event appended by AuditdEvent carries the identity of the login bound to event.Session whose PID equals g_opened[event.Session]",
 	}
 	m["C02"] = propDef{ID: "C02", Level: "proof",
-		Units: noDisp(trk(
+		Units: append(noDisp(trk(
 			[]string{`^ensures:(bind|park|inv|prefix|err)`, `^inv-`, `^pre:`},
 			[]string{`^ensures:(open|openbound|held|emit|inv|prefix|err)`, `^pre:`},
 			[]string{`^ensures:`, `^inv-`, `^pre:`, `^frame:`},
 			nil, []string{`^ensures:(dom|val|frame)`, `^inv-`}, []string{`^ensures:(frame)`})),
+			u("processors/auditd.(*Auditd).Read", `^assert_at:.*cutoff`)),
 		Assume: []string{"EventWriter.Write appends exactly one event or fails without effect (assumed contract)"},
 		Explain: "per-operation whole-view postconditions over the ghost trace out with provenance: an event for an unbound session is appended to the held queue (queue' == queue ++ [e], nothing emitted); for a bound session exactly [render(e)] is emitted; RemoteLogin binding a session emits render(queue) in order (out[N+k].src == queue[k]) and empties the queue; a LOGIN record meeting a parked login emits exactly its own rendering; the invariant 'bound => queue empty' makes these compose, by induction over operations, to 'every event from the LOGIN record to the credential-disposal record emitted exactly once, in processing order'; writeAndClearCache's loop invariant carries the in-order claim for any queue length and the write-failure-at-index-i case",
 	}
@@ -172,7 +173,8 @@ func propDefs() map[string]propDef {
 	m["C13"] = propDef{ID: "C13", Level: "other",
 		Units: []unit{u("ingesters/namedpipe.(*NamedPipeIngester).Ingest", `^blocks:`, `^ensures:(stop|noread)`), u("ingesters/auditlog.(*AuditLogIngester).Process", append(blk, `^ensures:`)...),
 			u("ingesters/auditlog.(*AuditLogIngester).Ingest", blk...), u("ingesters/syslog.(*SyslogIngester).Ingest", blk...), u("ingesters/syslog.(*SyslogIngester).Process", blk...),
-			u("processors/sshd.(*SshdProcessorer).ProcessSshdLogEntry", blk...), u("processors/sshd.ProcessEntry", blk...),
+			u("processors/sshd.(*SshdProcessorer).ProcessSshdLogEntry", append(blk, `^ensures:cancel`, `^pre:ProcessEntry`)...), u("processors/sshd.ProcessEntry", blk...),
+			u("processors/auditd.(*reassemblerCB).ReassemblyComplete", blk...),
 			u("processors/sshd.processAcceptPublicKeyEntry", append(blk, `^ensures:cancel`)...), u("processors/sshd.processAcceptedPasswordEntry", append(blk, `^ensures:cancel`)...),
 			u("processors/auditd.(*Auditd).Read", blk...), u("processors/auditd.parseAuditLogs", blk...), u("processors/auditd.maintainReassemblerLoop", blk...),
 			u(st+"(*sessionTracker).RemoteLogin", blk...), u(st+"(*sessionTracker).AuditdEvent", blk...), u(st+"(*sessionTracker).DeleteUsersWithoutLoginsBefore", blk...), u(st+"(*sessionTracker).DeleteRemoteUserLoginsBefore", blk...)},
@@ -234,7 +236,7 @@ func propDefs() map[string]propDef {
 			[]string{`^ensures:(fields|match|only|one|err)$`, `^pre:`},
 			[]string{`^ensures:(fields|certdata|match|only|one|err)$`, `^pre:`},
 			[]string{`^ensures:(event|outcome|one)$`, `^pre:`},
-			[]string{`^ensures:(event|one)$`, `^pre:`}),
+			[]string{`^ensures:(event|one)$`, `^pre:`, `^frame:`}),
 		Explain: "(i) code-level postconditions of every handler: on a match exactly one event whose fields equal named capture groups / constants, outcome, component, PID, node name, machine ID, timestamp; (ii) the dispatch table read from ProcessEntry/userTypeLogAuditFn; (iii) per message format of the oracle specs/sshd_formats.json, regular-language lemmas over the regexp contracts derived from the current pattern literals: every printed line reaches its handler, matches its pattern, and group k is exactly field k",
 	}
 	m["C07"] = propDef{ID: "C07", Level: "proof",
